@@ -2,12 +2,15 @@
 # Regenerates MANIFEST.json from the table below (kept in one place so it stays valid).
 import json, subprocess
 claimed = {
+ "C01": ("choice-tree DFS over mnemonic x operand form x every register x boundary immediates x BITS; reference x86 decoder (semantic tuple equality, facet by facet)", "7/C01"),
  "C05": ("choice-tree DFS over DB/DW/DD operand lists, RESB, ALIGNB x residue x ORG, non-emitting statements; directive reference model", "7/C05"),
 }
 texts = {
+ "C01": "Every cell of the stated product (all operand-less mnemonics, 9 two-operand operations x 3 widths x all register pairs, all 24 registers x boundary immediates, register/memory and memory/immediate forms, unary, shifts, segment/control moves, IN/OUT, PUSH/POP, IMUL, all 256 INT vectors, both modes) is assembled by the real pipeline and the bytes are decoded by an independent reference decoder and compared with the source's meaning (operation, registers in roles, operand size, immediate modulo width, effective address, prefixes, length). Exhaustive within the stated alphabets.",
  "C05": "Every operand list up to the stated length over a 27-item boundary alphabet (and rotations up to length 64), every RESB/ALIGNB/residue/ORG combination and every non-emitting statement is assembled by the real pipeline and compared byte for byte with a directive model; the location counter is compared with the emitted length. Exhaustive within the stated bounds.",
 }
 notes = {
+ "C01": "Trusted: x86ref decoder (written from the SDM opcode maps; self-checked; cross-checked against objdump where present). Statements gosk refuses with an error are not judged (DESIGN.md section 5). Known findings: the operand-less opcode table (pinned by a repository test).",
  "C05": "Trusted: the directive reference model (a few lines per directive), sentinel DB lines (members of the explored space), worker = cmd/gosk pipeline (gen.Parse + frontend.Exec), re-confirmed through the real CLI for every reported failure.",
 }
 na = {}
